@@ -66,7 +66,7 @@ ctx|all)
       FL="-O1 -g -fno-stack-protector -DFIBER_STACK_$S -I$REPO/include -Wno-deprecated-declarations"
       [ $strat = split ] && FL="$FL -fsplit-stack -Wl,--wrap=__splitstack_releasecontext"
       [ $fast = 1 ] && FL="$FL -DFIBER_FAST_SWITCHING"
-      run gcc $FL $REPO/src/fiber_context.c $V/harness/ctx_runner.c -o $OUT/ctx_${strat}_$([ $fast = 1 ] && echo asm || echo ucontext) -lpthread -Wl,--wrap=free -Wl,--wrap=munmap -Wl,--wrap=mmap
+      run gcc $FL $REPO/src/fiber_context.c $V/harness/ctx_runner.c -o $OUT/ctx_${strat}_$([ $fast = 1 ] && echo asm || echo ucontext) -lpthread -no-pie -Wl,--wrap=free -Wl,--wrap=munmap -Wl,--wrap=mmap
     done
   done
   waitall
